@@ -1,9 +1,11 @@
 mod gen;
+mod gen_text;
 mod ops;
 mod ops_access;
 mod ops_edit;
 mod ops_order;
 mod ops_path;
+mod ops_select;
 mod ops_text;
 mod props;
 mod rng;
